@@ -215,9 +215,12 @@ class UpgradedSignature(_util.funcsigs.Signature):
         )
 
     def __eq__(self, other):
-        if not super().__eq__(other):
-            return False
+        ret = super().__eq__(other)
+        if ret is not True or not isinstance(other, UpgradedSignature):
+            return ret
         return self.upgraded_return_annotation == other.upgraded_return_annotation
+
+    __hash__ = _util.funcsigs.Signature.__hash__
 
 
 Signature = UpgradedSignature
@@ -294,9 +297,12 @@ class UpgradedParameter(_util.funcsigs.Parameter):
         return self.replace(annotation=self.upgraded_annotation.source_value())
 
     def __eq__(self, other):
-        if not super().__eq__(other):
-            return False
+        ret = super().__eq__(other)
+        if ret is not True or not isinstance(other, UpgradedParameter):
+            return ret
         return self.upgraded_annotation == other.upgraded_annotation
+
+    __hash__ = _util.funcsigs.Parameter.__hash__
 
 
 def _upgrade_parameters_with_warning(parameters, stacklevel=1):
